@@ -598,6 +598,108 @@ Proof.
     + simpl. destruct He as [He _]. rewrite <- He. exact Hrest.
 Qed.
 
+(** ** 8'. the count-tracking projection reproduces the table of the full model exactly *)
+
+Lemma goi_dec_ok : forall s tid lvl ch own1, CInv s -> node_pre_b (cn s) lvl ch = true ->
+  take_toks tid ch (cown s) = Some own1 -> dec_ok_b (cn s) ch = true.
+Proof.
+  intros s tid lvl ch own1 H Hpre Ht. unfold dec_ok_b. apply forallb_forall. intros e He.
+  destruct (eref e) as [x|j] eqn:Er; [reflexivity|].
+  destruct (node_pre_b_child k terms nl _ _ _ e j Hpre He Er) as [ndj [Fj _]]. rewrite Fj.
+  apply N.leb_le. rewrite (ci_rc s H j ndj Fj), (take_toks_owners tid ch _ _ j Ht). lia.
+Qed.
+
+Lemma gc_dec_ok : forall s id nd, CInv s -> cfind (cn s) id = Some nd ->
+  dec_ok_b (cremove id (cn s)) (cch nd) = true.
+Proof.
+  intros s id nd H F. unfold dec_ok_b. apply forallb_forall. intros e He.
+  destruct (eref e) as [x|j] eqn:Er; [reflexivity|].
+  destruct (child_live s id nd e j H F He Er) as [ndc [Fc [_ Hlt]]].
+  rewrite (cfind_cremove id _ j (ti_nodup _ _ _ _ (ci_tbl s H))).
+  destruct (Pos.eqb_spec j id) as [E|_].
+  - subst j. rewrite F in Fc. inversion Fc; subst. lia.
+  - rewrite Fc. apply N.leb_le. rewrite (ci_rc s H j ndc Fc).
+    pose proof (parents_ge_cnt (cn s) j id nd (cfind_In _ _ _ F)). lia.
+Qed.
+
+Theorem erase_rc_sim : forall s a s' r, CInv s -> step s a = Some (s', r) ->
+  match erase_rc a with
+  | Some ra => step_rc k terms nl (cn s) ra = Some (cn s', r)
+  | None => cn s' = cn s /\ r = None
+  end.
+Proof.
+  intros s a s' r H Hs.
+  destruct a as [tid lvl ch fr|tid e|tid e|tid tid' e|id|tid e]; simpl in Hs; simpl erase_rc.
+  - unfold step_rc.
+    destruct (node_pre_b (cn s) lvl ch) eqn:Hpre; [|discriminate].
+    destruct (take_toks tid ch (cown s)) as [own1|] eqn:Ht; [|discriminate].
+    destruct (find_shape (cn s) lvl ch) as [id0|].
+    + rewrite (goi_dec_ok s tid lvl ch own1 H Hpre Ht). inversion Hs; subst. reflexivity.
+    + destruct (cfind (cn s) fr); [discriminate|]. inversion Hs; subst. reflexivity.
+  - destruct (eref e) as [x|j] eqn:Er.
+    + destruct (cref_ok_b terms (cn s) (RT x)); inversion Hs; subst. auto.
+    + destruct (owns_b (cown s) (tid, e)) eqn:Ho; [|discriminate]. inversion Hs; subst. simpl.
+      apply owns_b_In in Ho. destruct (owned_live s (tid, e) j H Ho Er) as [nd [F _]].
+      rewrite F. reflexivity.
+  - destruct (eref e) as [x|j] eqn:Er.
+    + destruct (cref_ok_b terms (cn s) (RT x)); inversion Hs; subst. auto.
+    + destruct (take_tok (tid, e) (cown s)) eqn:Ht; [|discriminate]. inversion Hs; subst. simpl.
+      destruct (owned_live s (tid, e) j H (take_tok_In _ _ _ Ht) Er) as [nd [F Hnz]].
+      rewrite F. destruct (N.eqb_spec (crc nd) 0); [contradiction | reflexivity].
+  - destruct (eref e) as [x|j].
+    + destruct (cref_ok_b terms (cn s) (RT x)); inversion Hs; subst. auto.
+    + destruct (take_tok (tid, e) (cown s)); [|discriminate]. inversion Hs; subst. auto.
+  - unfold step_rc. destruct (cfind (cn s) id) as [nd|] eqn:F; [|discriminate].
+    destruct (N.eqb (crc nd) 0); [|discriminate]. inversion Hs; subst. simpl.
+    rewrite (gc_dec_ok s id nd H F). reflexivity.
+  - destruct (is_bcdd k); [|discriminate]. destruct (eref e) as [x|j].
+    + destruct (cref_ok_b terms (cn s) (RT x)); inversion Hs; subst. auto.
+    + destruct (take_tok (tid, e) (cown s)); [|discriminate]. inversion Hs; subst. auto.
+Qed.
+
+Definition erase_rc_list (sched : list act) : list ract :=
+  flat_map (fun a => match erase_rc a with Some x => [x] | None => [] end) sched.
+
+Theorem run_erase_rc_sim : forall sched s s', CInv s -> run s sched = Some s' ->
+  run_rc k terms nl (cn s) (erase_rc_list sched) = Some (cn s').
+Proof.
+  induction sched as [|a rest IH]; intros s s' H Hr; simpl in Hr.
+  - inversion Hr; subst. reflexivity.
+  - destruct (step s a) as [[s1 res]|] eqn:Hs; [|discriminate].
+    pose proof (erase_rc_sim s a s1 res H Hs) as He.
+    pose proof (IH s1 s' (step_inv s a s1 res H Hs) Hr) as Hrest.
+    unfold erase_rc_list. simpl. fold (erase_rc_list rest).
+    destruct (erase_rc a) as [ra|].
+    + simpl. rewrite He. exact Hrest.
+    + simpl. destruct He as [He _]. rewrite <- He. exact Hrest.
+Qed.
+
+(** the count-tracking replay forgets to the table-only replay's shape for the two
+    actions that do not touch the shape, and keeps the structural invariant for
+    get_or_insert *)
+Theorem step_rc_shape : forall t a t' r, step_rc k terms nl t a = Some (t', r) ->
+  match a with
+  | RGoi lvl ch fr => step_tbl (cn_shape t) (TGoi lvl ch fr) = Some (cn_shape t', r)
+  | RInc _ | RDec _ => cn_shape t' = cn_shape t /\ r = None
+  | RGc id => cn_shape t' = cremove id (cn_shape t) /\ r = None
+  end.
+Proof.
+  intros t a t' r Hs. destruct a as [lvl ch fr|id|id|id]; simpl in Hs.
+  - unfold Conc.step_tbl. rewrite node_pre_b_cn_shape, find_shape_cn_shape, cfind_cn_shape.
+    destruct (node_pre_b t lvl ch); [|discriminate].
+    destruct (find_shape t lvl ch) as [id0|].
+    + destruct (dec_ok_b t ch); [|discriminate]. inversion Hs; subst. unfold rc_inc.
+      rewrite cn_shape_rc_upd, cn_shape_dec_children. reflexivity.
+    + destruct (cfind t fr); [discriminate|]. inversion Hs; subst. reflexivity.
+  - destruct (cfind t id); [|discriminate]. inversion Hs; subst.
+    split; [apply cn_shape_rc_upd | reflexivity].
+  - destruct (cfind t id) as [nd|]; [|discriminate]. destruct (N.eqb (crc nd) 0); [discriminate|].
+    inversion Hs; subst. split; [apply cn_shape_rc_upd | reflexivity].
+  - destruct (cfind t id) as [nd|]; [|discriminate]. destruct (N.eqb (crc nd) 0); [|discriminate].
+    destruct (dec_ok_b (cremove id t) (cch nd)); [|discriminate]. inversion Hs; subst.
+    rewrite cn_shape_dec_children, cn_shape_cremove. auto.
+Qed.
+
 (** the table-only replay keeps the structural invariant by itself (no ownership
     information needed): what the driver checks on the implementation's log *)
 Theorem step_tbl_inv : forall t a t' r, TInv t -> step_tbl t a = Some (t', r) -> TInv t'.
